@@ -491,7 +491,7 @@ func TestC19(t *testing.T) {
 		"user keys are <= 2 bytes and can never collide with the >= 9-byte internal element keys; element values are non-empty so that 'present' and 'absent' replies differ")
 	defer finishProperty(st)
 	c19AliasProbe(t, st)
-	rapid.Check(t, func(t *rapid.T) { c19Run(t, st) })
+	checkCases(t, st, func(t *rapid.T) { c19Run(t, st) })
 }
 
 // c19AliasProbe replays the one input family that is excluded from the
